@@ -1,12 +1,14 @@
 //! C12 - encoder output is always valid target-encoding text that decodes to the input.
 use super::ench::{self, EScratch, EncCheck};
 use crate::drive_enc::{ESink, EncHistory, Src};
+use crate::encs;
 use crate::fw::{self, par_run, Ctx, Stats, Violation};
+use serde_json::json;
 use crate::hist_enc::{self, EProfile};
 use encoding_rs::*;
 use std::time::Instant;
 
-pub const RULE: &str = "case = encoder history as in C04, plus every scalar value alone and embedded as 'a X b' / 'U+3042 X U+3042' for the multi-byte and stateful encoders; oracle = round trip with per-prefix invariants: after every call the accumulated bytes are accepted without error by a fresh no-BOM decoder of the output encoding, has_pending_state() equals 'the last escape in the accumulated ISO-2022-JP bytes is not ESC ( B' (false for other encodings), after the final InputEmpty the ISO-2022-JP stream is in ASCII, and decoding the complete output equals the input with each unmappable replaced by its NCR text and with the Standard's fixed folding set applied (typed in from the Standard). A further family uses capacities BELOW the size that guarantees progress (the per-call invariants are unconditional; a history that stops making progress simply ends). Non-trivial = non-ASCII text with at least two calls; distinct = distinct history.";
+pub const RULE: &str = "case = encoder history as in C04, plus every scalar value alone and embedded as 'a X b' / 'U+3042 X U+3042' for the multi-byte and stateful encoders; oracle = round trip with per-prefix invariants: after every call the accumulated bytes are accepted without error by a fresh no-BOM decoder of the output encoding, has_pending_state() equals 'the last escape in the accumulated ISO-2022-JP bytes is not ESC ( B' (false for other encodings), after the final InputEmpty the ISO-2022-JP stream is in ASCII, and decoding the complete output equals the input with each unmappable replaced by its NCR text and with the Standard's fixed folding set applied (typed in from the Standard). The one-shot Encoding::encode is held to the same round trip on texts of k long-reference characters + a mapped non-ASCII character + an ASCII tail for every k (its buffer regrowth must not lose the return to ASCII). A further family uses capacities BELOW the size that guarantees progress (the per-call invariants are unconditional; a history that stops making progress simply ends). Non-trivial = non-ASCII text with at least two calls; distinct = distinct history.";
 
 fn check<'a>(ctx: &Ctx) -> EncCheck<'a> {
     EncCheck {
@@ -115,11 +117,103 @@ fn undersized_family(ctx: &Ctx) -> Stats {
     st
 }
 
+/// one complete text through the one-shot `Encoding::encode` (its own buffer sizing and regrowth):
+/// the bytes must be valid, end in the ASCII state and decode to the text with NCRs and folds
+fn one_shot_check(enc: &'static encoding_rs::Encoding, text: &str) -> Option<String> {
+    use crate::model_enc;
+    let algo = model_enc::enc_algo_for(enc);
+    let oenc = enc.output_encoding();
+    let r = fw::catch(|| {
+        let (b, _, _) = enc.encode(text);
+        b.into_owned()
+    });
+    let bytes = match r {
+        Ok(b) => b,
+        Err(p) => return Some(format!("Encoding::encode panicked: {}", p)),
+    };
+    if algo == model_enc::EncAlgo::Iso2022Jp && ench::iso2022jp_pending(&bytes) {
+        return Some(format!("the ISO-2022-JP output of Encoding::encode has not returned to the ASCII state: ...{}", fw::hex(&bytes[bytes.len().saturating_sub(24)..])));
+    }
+    let mut expect = String::with_capacity(text.len() + 16);
+    if oenc == encoding_rs::UTF_8 {
+        expect.push_str(text);
+    } else {
+        // which characters are unmappable, and which scalar the encoder reports for them (U+FFFD for
+        // ESC / SO / SI in ISO-2022-JP), is decided by the reference encoder
+        let cps: Vec<u32> = text.chars().map(|c| c as u32).collect();
+        let unm = model_enc::encode(algo, &cps, false).unmappables;
+        let mut ui = 0;
+        for (i, &c) in cps.iter().enumerate() {
+            if ui < unm.len() && unm[ui].0 == i {
+                expect.push_str(&format!("&#{};", unm[ui].1));
+                ui += 1;
+            } else {
+                expect.push(char::from_u32(model_enc::fold(algo, c).unwrap_or(c)).unwrap());
+            }
+        }
+    }
+    let got = oenc.decode_without_bom_handling_and_without_replacement(&bytes);
+    match got {
+        None => Some(format!("the output of Encoding::encode is not accepted by the {} decoder: ...{}", oenc.name(), fw::hex(&bytes[bytes.len().saturating_sub(32)..]))),
+        Some(g) if g != expect.as_str() => {
+            let pos = g.bytes().zip(expect.bytes()).position(|(a, b)| a != b).unwrap_or(g.len().min(expect.len()));
+            Some(format!("decoding the output of Encoding::encode does not give the text with NCRs and folds: first difference at byte {} of the decoded text (got ...{:?}, expected ...{:?})", pos, g.get(pos.saturating_sub(6)..(pos + 12).min(g.len())).unwrap_or(""), expect.get(pos.saturating_sub(6)..(pos + 12).min(expect.len())).unwrap_or("")))
+        }
+        _ => None,
+    }
+}
+
+/// k copies of a character whose reference is long, then a mapped non-ASCII character, then ASCII -
+/// for EVERY k, because Encoding::encode grows its buffer in steps and what matters is the state
+/// the encoder is in when a step happens
+fn one_shot_family(ctx: &Ctx) -> Stats {
+    let encs_ = ench::encoder_encodings();
+    let kmax = if ctx.tier == fw::Tier::Thorough { 1300 } else { 320 };
+    let mut st = par_run(ctx, encs_.len() * 4, |part, st| {
+        let enc = encs_[part / 4];
+        let x = [0x5D0u32, 0x80, 0x1F600, 0x1B][part % 4];
+        let xc = char::from_u32(x).unwrap();
+        let alpha = crate::hist_enc::alphabet(enc);
+        let algo = crate::model_enc::enc_algo_for(enc);
+        let mut ms: Vec<u32> = alpha.iter().cloned().filter(|c| *c >= 0x80 && !crate::drive_enc::is_sur(*c) && crate::model_enc::mappable(algo, *c)).take(3).collect();
+        ms.extend_from_slice(&[0x3042, 0xFF71, 0xA5]);
+        ms.dedup();
+        let mut prefix = String::new();
+        for k in 0..=kmax {
+            if fw::should_stop() {
+                return;
+            }
+            if k > 0 {
+                prefix.push(xc);
+            }
+            for &m in &ms {
+                for tail in ["ab", "a", "", "\u{3044}c"] {
+                    let mut t = prefix.clone();
+                    t.push(char::from_u32(m).unwrap());
+                    t.push_str(tail);
+                    st.evals += 1;
+                    st.nontrivial_distinct();
+                    st.class("one-shot-encode-k-long-references-then-mapped-then-ascii");
+                    if let Some(msg) = one_shot_check(enc, &t) {
+                        st.violations.push(Violation { msg: format!("{} text {} x U+{:04X} + U+{:04X} + {:?}: {}", enc.name(), k, x, m, tail, msg), sig: "C12:one-shot".into(), case: json!({"kind": "c12_one_shot", "encoding": encs::const_name(enc), "text_utf8_hex": fw::hex(t.as_bytes())}) });
+                        return;
+                    }
+                }
+            }
+        }
+    });
+    st.exhaustive.push(format!("Encoding::encode: per encoder, k = 0..={} copies of U+05D0 / U+0080 / U+1F600 / ESC, then each of up to 6 mapped non-ASCII characters, then one of 4 tails", kmax));
+    st
+}
+
 pub fn run(ctx: &Ctx) -> i32 {
     let t0 = Instant::now();
     let mut st = scalar_sweep(ctx);
     if !fw::should_stop() {
         st.merge(undersized_family(ctx));
+    }
+    if !fw::should_stop() {
+        st.merge(one_shot_family(ctx));
     }
     if !fw::should_stop() {
         let c = check(ctx);
@@ -129,5 +223,10 @@ pub fn run(ctx: &Ctx) -> i32 {
 }
 
 pub fn replay(case: &serde_json::Value) -> Option<Vec<Violation>> {
+    if case.get("kind").and_then(|k| k.as_str()) == Some("c12_one_shot") {
+        let enc = encs::by_const(case.get("encoding")?.as_str()?)?;
+        let t = String::from_utf8(fw::unhex(case.get("text_utf8_hex")?.as_str()?)).ok()?;
+        return Some(one_shot_check(enc, &t).map(|m| vec![Violation { msg: format!("{}: {}", enc.name(), m), sig: "C12:one-shot".into(), case: case.clone() }]).unwrap_or_default());
+    }
     ench::replay_with(case, &ench::verdict_c12)
 }
